@@ -38,6 +38,7 @@ import (
 	"github.com/resonatehq/resonate/pkg/schedule"
 	"github.com/resonatehq/resonate/pkg/task"
 	"github.com/resonatehq/resonate/verifharness/internal/canon"
+	"github.com/resonatehq/resonate/verifharness/internal/lean"
 	"google.golang.org/grpc"
 	"google.golang.org/grpc/codes"
 	"google.golang.org/grpc/credentials/insecure"
@@ -308,6 +309,140 @@ func endpoints() []endpoint {
 
 // ---------------------------------------------------------------- cases
 
+// malformed requests: every field absent / empty / null / negative / huge / wrongly typed / hostile, in both protocols.
+// Expected: refused with a client error without reaching the kernel, OR the kernel receives a request that satisfies the
+// model's `ValidReq` (the hypothesis of the no-assertion theorem C13.request_never_panics) — never a 5xx, never a crash.
+type badReq struct {
+	name   string
+	method string
+	path   string
+	body   string
+	grpc   func(c *clients) (any, error)
+}
+
+func forged[T any](next *T) string {
+	s, _ := (&t_api.Cursor[T]{Next: next}).Encode()
+	return s
+}
+
+func malformed() []badReq {
+	h := func(name, method, path, body string) badReq { return badReq{name: name, method: method, path: path, body: body} }
+	g := func(name string, f func(c *clients) (any, error)) badReq { return badReq{name: name, grpc: f} }
+	neg := int64(-1)
+	_ = neg
+	return []badReq{
+		h("search-promises:empty-id", "GET", "/promises?id=&limit=5", ""),
+		h("search-promises:no-id", "GET", "/promises?limit=5", ""),
+		h("search-promises:limit-0", "GET", "/promises?id=p*&limit=0", ""),
+		h("search-promises:limit-neg", "GET", "/promises?id=p*&limit=-1", ""),
+		h("search-promises:limit-huge", "GET", "/promises?id=p*&limit=100000", ""),
+		h("search-promises:limit-text", "GET", "/promises?id=p*&limit=abc", ""),
+		h("search-promises:state-bogus", "GET", "/promises?id=p*&state=bogus", ""),
+		h("search-promises:cursor-garbage", "GET", "/promises?cursor=garbage", ""),
+		h("search-promises:cursor-forged-null", "GET", "/promises?cursor="+forged[t_api.SearchPromisesRequest](nil), ""),
+		h("search-promises:cursor-forged-empty", "GET", "/promises?cursor="+forged(&t_api.SearchPromisesRequest{Id: "", Limit: 0}), ""),
+		h("search-promises:cursor-forged-neg-limit", "GET", "/promises?cursor="+forged(&t_api.SearchPromisesRequest{Id: "p*", Limit: -3, States: []promise.State{promise.Pending}}), ""),
+		h("search-schedules:empty-id", "GET", "/schedules?id=&limit=5", ""),
+		h("search-schedules:limit-neg", "GET", "/schedules?id=s*&limit=-1", ""),
+		h("search-schedules:cursor-forged-null", "GET", "/schedules?cursor="+forged[t_api.SearchSchedulesRequest](nil), ""),
+		h("search-schedules:cursor-forged-empty", "GET", "/schedules?cursor="+forged(&t_api.SearchSchedulesRequest{Id: "", Limit: 0}), ""),
+		h("create-promise:empty-body", "POST", "/promises", `{}`),
+		h("create-promise:empty-id", "POST", "/promises", `{"id":"","timeout":5}`),
+		h("create-promise:null-id", "POST", "/promises", `{"id":null,"timeout":5}`),
+		h("create-promise:neg-timeout", "POST", "/promises", `{"id":"p","timeout":-5}`),
+		h("create-promise:text-timeout", "POST", "/promises", `{"id":"p","timeout":"x"}`),
+		h("create-promise:nulls", "POST", "/promises", `{"id":"p","timeout":5,"tags":null,"param":null}`),
+		h("create-promise:not-json", "POST", "/promises", `not json`),
+		h("create-promise:huge-timeout", "POST", "/promises", `{"id":"p","timeout":9223372036854775807}`),
+		h("create-promise-task:no-task", "POST", "/promises/task", `{"promise":{"id":"p","timeout":5}}`),
+		h("create-promise-task:no-promise", "POST", "/promises/task", `{"task":{"processId":"w","ttl":1}}`),
+		h("create-promise-task:bad-task", "POST", "/promises/task", `{"promise":{"id":"p","timeout":5},"task":{"processId":"","ttl":-1}}`),
+		h("complete:empty-body", "PATCH", "/promises/p", `{}`),
+		h("complete:pending", "PATCH", "/promises/p", `{"state":"PENDING"}`),
+		h("complete:bogus", "PATCH", "/promises/p", `{"state":"BOGUS"}`),
+		h("complete:null-value", "PATCH", "/promises/p", `{"state":"RESOLVED","value":null}`),
+		h("callback:empty-body", "POST", "/callbacks", `{}`),
+		h("callback:neg-timeout", "POST", "/callbacks", `{"promiseId":"p","rootPromiseId":"r","timeout":-1,"recv":"default"}`),
+		h("callback:null-recv", "POST", "/callbacks", `{"promiseId":"p","rootPromiseId":"r","timeout":5,"recv":null}`),
+		h("callback:number-recv", "POST", "/callbacks", `{"promiseId":"p","rootPromiseId":"r","timeout":5,"recv":5}`),
+		h("callback:no-recv", "POST", "/callbacks", `{"promiseId":"p","rootPromiseId":"r","timeout":5}`),
+		h("callback:same-ids", "POST", "/callbacks", `{"promiseId":"p","rootPromiseId":"p","timeout":5,"recv":"default"}`),
+		h("subscription:empty-id", "POST", "/subscriptions", `{"id":"","promiseId":"p","timeout":5,"recv":"default"}`),
+		h("subscription:null-recv", "POST", "/subscriptions", `{"id":"s","promiseId":"p","timeout":5,"recv":null}`),
+		h("schedule:empty-body", "POST", "/schedules", `{}`),
+		h("schedule:bad-cron", "POST", "/schedules", `{"id":"s","cron":"bogus","promiseId":"x","promiseTimeout":5}`),
+		h("schedule:bad-template", "POST", "/schedules", `{"id":"s","cron":"* * * * *","promiseId":"x.{{.timestamp","promiseTimeout":5}`),
+		h("schedule:neg-timeout", "POST", "/schedules", `{"id":"s","cron":"* * * * *","promiseId":"x","promiseTimeout":-5}`),
+		h("lock-acquire:empty-body", "POST", "/locks/acquire", `{}`),
+		h("lock-acquire:neg-ttl", "POST", "/locks/acquire", `{"resourceId":"r","executionId":"e","processId":"w","ttl":-1}`),
+		h("lock-acquire:empty-ids", "POST", "/locks/acquire", `{"resourceId":"","executionId":"","processId":"","ttl":1}`),
+		h("lock-release:empty-body", "POST", "/locks/release", `{}`),
+		h("lock-heartbeat:empty-body", "POST", "/locks/heartbeat", `{}`),
+		h("task-claim:empty-body", "POST", "/tasks/claim", `{}`),
+		h("task-claim:empty-process", "POST", "/tasks/claim", `{"id":"t","counter":1,"processId":"","ttl":1}`),
+		h("task-claim:neg-ttl", "POST", "/tasks/claim", `{"id":"t","counter":1,"processId":"w","ttl":-1}`),
+		h("task-claim:neg-counter", "POST", "/tasks/claim", `{"id":"t","counter":-1,"processId":"w","ttl":1}`),
+		h("task-claim-get:text-counter", "GET", "/tasks/claim/t/abc", ""),
+		h("task-complete:empty-body", "POST", "/tasks/complete", `{}`),
+		h("task-heartbeat:empty-process", "POST", "/tasks/heartbeat", `{"processId":""}`),
+		g("grpc:search-promises:empty", func(c *clients) (any, error) { return c.p.SearchPromises(ctx, &pb.SearchPromisesRequest{}) }),
+		g("grpc:search-promises:neg-limit", func(c *clients) (any, error) {
+			return c.p.SearchPromises(ctx, &pb.SearchPromisesRequest{Id: "p*", Limit: -1})
+		}),
+		g("grpc:search-promises:cursor-garbage", func(c *clients) (any, error) {
+			return c.p.SearchPromises(ctx, &pb.SearchPromisesRequest{Cursor: "garbage"})
+		}),
+		g("grpc:search-promises:cursor-forged-null", func(c *clients) (any, error) {
+			return c.p.SearchPromises(ctx, &pb.SearchPromisesRequest{Cursor: forged[t_api.SearchPromisesRequest](nil)})
+		}),
+		g("grpc:search-promises:cursor-forged-empty", func(c *clients) (any, error) {
+			return c.p.SearchPromises(ctx, &pb.SearchPromisesRequest{Cursor: forged(&t_api.SearchPromisesRequest{Id: "", Limit: 0})})
+		}),
+		g("grpc:search-schedules:empty", func(c *clients) (any, error) { return c.sc.SearchSchedules(ctx, &pb.SearchSchedulesRequest{}) }),
+		g("grpc:search-schedules:cursor-forged-null", func(c *clients) (any, error) {
+			return c.sc.SearchSchedules(ctx, &pb.SearchSchedulesRequest{Cursor: forged[t_api.SearchSchedulesRequest](nil)})
+		}),
+		g("grpc:create-promise:empty", func(c *clients) (any, error) { return c.p.CreatePromise(ctx, &pb.CreatePromiseRequest{}) }),
+		g("grpc:create-promise:neg-timeout", func(c *clients) (any, error) {
+			return c.p.CreatePromise(ctx, &pb.CreatePromiseRequest{Id: "p", Timeout: -5})
+		}),
+		g("grpc:create-promise-task:nil-parts", func(c *clients) (any, error) {
+			return c.p.CreatePromiseAndTask(ctx, &pb.CreatePromiseAndTaskRequest{})
+		}),
+		g("grpc:create-promise-task:nil-task", func(c *clients) (any, error) {
+			return c.p.CreatePromiseAndTask(ctx, &pb.CreatePromiseAndTaskRequest{Promise: &pb.CreatePromiseRequest{Id: "p", Timeout: 5}})
+		}),
+		g("grpc:create-promise-task:bad-task", func(c *clients) (any, error) {
+			return c.p.CreatePromiseAndTask(ctx, &pb.CreatePromiseAndTaskRequest{Promise: &pb.CreatePromiseRequest{Id: "p", Timeout: 5}, Task: &pb.CreatePromiseTaskRequest{ProcessId: "", Ttl: -1}})
+		}),
+		g("grpc:resolve:empty", func(c *clients) (any, error) { return c.p.ResolvePromise(ctx, &pb.ResolvePromiseRequest{}) }),
+		g("grpc:callback:nil-recv", func(c *clients) (any, error) {
+			return c.cb.CreateCallback(ctx, &pb.CreateCallbackRequest{PromiseId: "p", RootPromiseId: "r", Timeout: 5})
+		}),
+		g("grpc:callback:empty", func(c *clients) (any, error) { return c.cb.CreateCallback(ctx, &pb.CreateCallbackRequest{}) }),
+		g("grpc:subscription:nil-recv", func(c *clients) (any, error) {
+			return c.su.CreateSubscription(ctx, &pb.CreateSubscriptionRequest{Id: "s", PromiseId: "p", Timeout: 5})
+		}),
+		g("grpc:schedule:empty", func(c *clients) (any, error) { return c.sc.CreateSchedule(ctx, &pb.CreateScheduleRequest{}) }),
+		g("grpc:schedule:bad-cron", func(c *clients) (any, error) {
+			return c.sc.CreateSchedule(ctx, &pb.CreateScheduleRequest{Id: "s", Cron: "bogus", PromiseId: "x", PromiseTimeout: 5})
+		}),
+		g("grpc:lock-acquire:empty", func(c *clients) (any, error) { return c.l.AcquireLock(ctx, &pb.AcquireLockRequest{}) }),
+		g("grpc:lock-acquire:neg-ttl", func(c *clients) (any, error) {
+			return c.l.AcquireLock(ctx, &pb.AcquireLockRequest{ResourceId: "r", ExecutionId: "e", ProcessId: "w", Ttl: -1})
+		}),
+		g("grpc:task-claim:empty", func(c *clients) (any, error) { return c.t.ClaimTask(ctx, &pb.ClaimTaskRequest{}) }),
+		g("grpc:task-claim:empty-process", func(c *clients) (any, error) {
+			return c.t.ClaimTask(ctx, &pb.ClaimTaskRequest{Id: "t", Counter: 1, ProcessId: "", Ttl: 1})
+		}),
+		g("grpc:task-claim:neg-ttl", func(c *clients) (any, error) {
+			return c.t.ClaimTask(ctx, &pb.ClaimTaskRequest{Id: "t", Counter: 1, ProcessId: "w", Ttl: -1})
+		}),
+		g("grpc:task-complete:empty", func(c *clients) (any, error) { return c.t.CompleteTask(ctx, &pb.CompleteTaskRequest{}) }),
+		g("grpc:task-heartbeat:empty", func(c *clients) (any, error) { return c.t.HeartbeatTasks(ctx, &pb.HeartbeatTasksRequest{}) }),
+	}
+}
+
 type caseT struct {
 	Idx    int    `json:"idx"`
 	Ep     string `json:"ep"`
@@ -317,11 +452,15 @@ type caseT struct {
 	Proto  string `json:"proto"` // http | grpc | equiv | idpath
 	Path   string `json:"path,omitempty"` // idpath: the request path as sent
 	Want   string `json:"want,omitempty"` // idpath: the id the kernel must receive
+	Bad    int    `json:"bad,omitempty"`  // malformed: index into malformed()
 }
 
 func (c caseT) key() string {
 	if c.Proto == "idpath" {
 		return fmt.Sprintf("idpath:%s:%s", c.Ep, c.Path)
+	}
+	if c.Proto == "malformed" {
+		return fmt.Sprintf("malformed:%d:%s", c.Bad, c.Ep)
 	}
 	return fmt.Sprintf("%s:%s:%d:%s:%d", c.Proto, c.Ep, c.Status, c.Form, c.Shape)
 }
@@ -414,6 +553,9 @@ func enumerate(statuses []int) []caseT {
 		}
 		cs = append(cs, caseT{Ep: ep.name, Proto: "equiv"})
 	}
+	for i, b := range malformed() {
+		cs = append(cs, caseT{Ep: b.name, Proto: "malformed", Bad: i})
+	}
 	// ids in URL paths reach the kernel exactly as the client spelled them (percent-decoding only)
 	for _, t := range [][2]string{{"ReadPromise", "/promises/"}, {"ResolvePromise", "/promises/"}, {"ReadSchedule", "/schedules/"}, {"DeleteSchedule", "/schedules/"}} {
 		for _, id := range pathIds {
@@ -442,7 +584,7 @@ func flagOf(res any, name string) (bool, bool) {
 	return f.Bool(), true
 }
 
-func child(from, to int, factsPath string) {
+func child(from, to int, factsPath, driverPath string) {
 	slog.SetDefault(slog.New(slog.NewTextHandler(io.Discard, nil)))
 	cases := enumerate(allStatuses(factsPath))
 	stub := &stubAPI{}
@@ -470,6 +612,14 @@ func child(from, to int, factsPath string) {
 		eps[e.name] = e
 	}
 	out := bufio.NewWriter(os.Stdout)
+	bads := malformed()
+	var drv *lean.Driver
+	if driverPath != "" {
+		if drv, err = lean.Start(driverPath); err != nil {
+			panic(err)
+		}
+		defer drv.Close()
+	}
 	doHTTP := func(e endpoint) (*http.Response, []byte, error) {
 		req, _ := http.NewRequest(e.method, base+e.path, strings.NewReader(e.body))
 		for k, v := range e.headers {
@@ -491,7 +641,53 @@ func child(from, to int, factsPath string) {
 		out.Flush()
 		e := eps[c.Ep]
 		problem := ""
-		if c.Proto == "idpath" {
+		if c.Proto == "malformed" {
+			b := bads[c.Bad]
+			stub.next = func(r *t_api.Request) (*t_api.Response, error) { return mkResponse(r.Kind, t_api.StatusOK, 1), nil }
+			stub.captured = nil
+			refused := false
+			if b.grpc != nil {
+				_, gerr := b.grpc(cl)
+				if gerr != nil {
+					switch status.Code(gerr) {
+					case codes.InvalidArgument, codes.NotFound, codes.FailedPrecondition, codes.AlreadyExists, codes.PermissionDenied:
+						refused = true
+					default:
+						problem = fmt.Sprintf("malformed gRPC request answered %v (not a client error): %v", status.Code(gerr), gerr)
+					}
+				}
+			} else {
+				res, _, herr := doHTTP(endpoint{method: b.method, path: b.path, body: b.body, headers: map[string]string{"request-id": "rid"}})
+				switch {
+				case herr != nil:
+					problem = "no HTTP reply to a malformed request: " + herr.Error()
+				case res.StatusCode >= 500:
+					problem = fmt.Sprintf("malformed HTTP request answered %d", res.StatusCode)
+				case res.StatusCode >= 400:
+					refused = true
+				}
+			}
+			if problem == "" {
+				if rq := stub.captured; rq != nil {
+					// it reached the kernel: it must satisfy the hypothesis of the no-assertion theorem
+					func() {
+						defer func() {
+							if p := recover(); p != nil {
+								problem = fmt.Sprintf("the kernel received a request that cannot even be described (nil payload): %v", p)
+							}
+						}()
+						rep, _, err := drv.Call(M{"op": "valid_req", "req": canon.Req(rq)})
+						if err != nil {
+							problem = "harness: " + err.Error()
+						} else if rep["valid"] != true {
+							problem = fmt.Sprintf("the kernel received a request outside ValidReq (it would hit a kernel assertion): %v", canon.Req(rq))
+						}
+					}()
+				} else if !refused {
+					problem = "neither refused with a client error nor handed to the kernel"
+				}
+			}
+		} else if c.Proto == "idpath" {
 			stub.next = func(r *t_api.Request) (*t_api.Response, error) { return mkResponse(r.Kind, t_api.StatusOK, 1), nil }
 			stub.captured = nil
 			e2 := e
@@ -597,14 +793,14 @@ func main() {
 	facts := flag.String("facts", "", "gofacts.json with the status universe")
 	outPath := flag.String("out", "", "summary JSON path")
 	work := flag.String("work", "", "scratch directory")
-	_ = flag.String("driver", "", "unused (uniform harness interface)")
+	driverFlag := flag.String("driver", "", "Lean model driver (ValidReq is evaluated by the model)")
 	_ = flag.Int64("seed", 1, "unused: the enumeration is exhaustive")
 	only := flag.String("only", "", "run only cases whose key contains this substring")
 	flag.String("replay", "", "unused")
 	flag.String("corpus", "", "unused")
 	flag.Parse()
 	if *isChild {
-		child(*from, *to, *facts)
+		child(*from, *to, *facts, *driverFlag)
 		return
 	}
 	os.MkdirAll(*work, 0o755)
@@ -614,7 +810,7 @@ func main() {
 	crashes := 0
 	next := 0
 	for next < len(cases) {
-		cmd := exec.Command(self, "-child", "-from", fmt.Sprint(next), "-to", fmt.Sprint(len(cases)), "-facts", *facts)
+		cmd := exec.Command(self, "-child", "-from", fmt.Sprint(next), "-to", fmt.Sprint(len(cases)), "-facts", *facts, "-driver", *driverFlag)
 		var stderr bytes.Buffer
 		cmd.Stderr = &stderr
 		pipe, _ := cmd.StdoutPipe()
